@@ -495,6 +495,8 @@ def o_C02(I):
                 out.append((I.name, seg, f"first response {e['raw'].hex()}: expected `{exp}`, got `{rets[0]['text'] if rets else None}`"))
         elif e['ctx'] == 'run':
             bad = [x for x in rets if 'CodecError' in x['text'] or 'SocketClosed' in x['text']]
+            if bad and ('werr' in I.cfg or 'wzero' in I.cfg or any(x['kind'] == 'in' and x['pkt'] is None and x['seg'] == seg for x in ev)):
+                continue          # (the transport refused the answer, or the same read carried something undecodable)
             if bad:
                 out.append((I.name, seg, f"well-formed packet {e['raw'].hex()} rejected: {bad[0]['text']}"))
                 continue
